@@ -324,6 +324,15 @@ def m_ptr_add(E, path, a):
     return E.ptr_offset(r, sx(n) if n.s else n.v)
 
 
+def m_ptr_wrapping(sign):
+    def f(E, path, a):
+        r, n = a
+        if not n.conc(): n = E.concretize(n, 0, 1 << 12)
+        k = (sx(n) if n.s else n.v) * sign
+        return Ref(r.root, r.path[:-1] + (r.path[-1] + k,), r.meta, r.alloc)
+    return f
+
+
 def m_ptr_sub(E, path, a):
     r, n = a
     if not n.conc(): n = E.concretize(n, 0, r.path[-1] + 1)
@@ -405,7 +414,8 @@ def m_copied(E, path, a): return ['copied', a[0]]
 def m_rev(E, path, a): return ['rev', a[0]]
 def m_into_iter(E, path, a):
     v = a[0]
-    if v.__class__ is list and v and v[0] in ('iter', 'enum', 'copied', 'rev', 'range', 'arr'): return v
+    if v.__class__ is list and v and v[0] in ('iter', 'enum', 'copied', 'rev', 'range', 'arr', 'chain', 'take', 'skip', 'map', 'filter', 'take_while', 'skip_while'): return v
+    if v.__class__ is EnumV and v.ty == 'Option': return m_opt_into_iter(E, path, [v])
     if v.__class__ is Ref: s = as_slice_ref(E, v); return ['iter', s, 0, s.meta]
     if v.__class__ is list and len(v) == 2 and all(x.__class__ is IntV for x in v): return ['range', v[0], v[1]]
     if v.__class__ is list: return ['arr', v, 0]
@@ -448,7 +458,126 @@ def it_next(E, it, back=False):
         if it[2] >= len(it[1]): return opt_none(E)
         v = it[1][it[2]]; it[2] += 1
         return opt_some(E, v)
+    if k == 'chain':
+        if it[3] == 0:
+            x = it_next(E, it[1], back)
+            if x.var == 'Some': return x
+            it[3] = 1
+        return it_next(E, it[2], back)
+    if k == 'take':
+        if it[2] <= 0: return opt_none(E)
+        it[2] -= 1; return it_next(E, it[1], back)
+    if k == 'skip':
+        while it[2] > 0:
+            it[2] -= 1
+            if it_next(E, it[1]).var == 'None': return opt_none(E)
+        return it_next(E, it[1], back)
+    if k == 'map':
+        x = it_next(E, it[1], back)
+        if x.var == 'None': return x
+        return opt_some(E, call_closure(E, it[2], [x.fields[0]]))
+    if k == 'filter':
+        while True:
+            x = it_next(E, it[1], back)
+            if x.var == 'None': return x
+            box = [x.fields[0]]
+            if E.branch_bool(call_closure(E, it[2], [Ref(box, (0,), None, 'local')])): return x
+    if k == 'take_while':
+        if it[3]: return opt_none(E)
+        x = it_next(E, it[1])
+        if x.var == 'None': return x
+        box = [x.fields[0]]
+        if E.branch_bool(call_closure(E, it[2], [Ref(box, (0,), None, 'local')])): return x
+        it[3] = True; return opt_none(E)
+    if k == 'skip_while':
+        while not it[3]:
+            x = it_next(E, it[1])
+            if x.var == 'None': return x
+            box = [x.fields[0]]
+            if not E.branch_bool(call_closure(E, it[2], [Ref(box, (0,), None, 'local')])): it[3] = True; return x
+        return it_next(E, it[1])
     raise Unsupported('iterator ' + str(k))
+
+
+def m_chain(E, path, a): return ['chain', m_into_iter(E, path, [a[0]]), m_into_iter(E, path, [a[1]]), 0]
+def m_it_take(E, path, a): return ['take', a[0], cint(E, a[1], 0, 1 << 16)]
+def m_it_skip(E, path, a): return ['skip', a[0], cint(E, a[1], 0, 1 << 16)]
+def m_map_it(E, path, a): return ['map', a[0], a[1]]
+def m_filter_it(E, path, a): return ['filter', a[0], a[1]]
+def m_take_while(E, path, a): return ['take_while', a[0], a[1], False]
+def m_skip_while(E, path, a): return ['skip_while', a[0], a[1], False]
+
+
+def m_opt_into_iter(E, path, a):
+    v = a[0]
+    return ['arr', [v.fields[0]] if v.var == 'Some' else [], 0]
+
+
+def it_all(E, it, limit=100000):
+    out = []
+    while True:
+        x = it_next(E, it)
+        if x.var == 'None': return out
+        out.append(x.fields[0])
+        if len(out) > limit: raise Unsupported('iterator too long')
+
+
+def m_minmax_it(which):
+    def f(E, path, a):
+        it = a[0] if a[0].__class__ is list else deref(a[0])
+        xs = it_all(E, it)
+        if not xs: return opt_none(E)
+        best = xs[0]
+        for x in xs[1:]:
+            lt = E.branch_bool(E.binop('Lt', x, best))
+            if (which == 'min' and lt) or (which == 'max' and not lt): best = x
+        return opt_some(E, best)
+    return f
+
+
+def m_count(E, path, a):
+    it = a[0] if a[0].__class__ is list else deref(a[0])
+    return IntV(E.PW, len(it_all(E, it)))
+
+
+def m_last(E, path, a):
+    it = a[0] if a[0].__class__ is list else deref(a[0])
+    xs = it_all(E, it)
+    return opt_some(E, xs[-1]) if xs else opt_none(E)
+
+
+def m_nth(E, path, a):
+    it = deref(a[0]); n = cint(E, a[1], 0, 1 << 16)
+    for _ in range(n):
+        if it_next(E, it).var == 'None': return opt_none(E)
+    return it_next(E, it)
+
+
+def m_find(E, path, a):
+    it = deref(a[0]) if a[0].__class__ is Ref else a[0]
+    while True:
+        x = it_next(E, it)
+        if x.var == 'None': return x
+        box = [x.fields[0]]
+        if E.branch_bool(call_closure(E, a[1], [Ref(box, (0,), None, 'local')])): return x
+
+
+def m_fold(E, path, a):
+    it = a[0] if a[0].__class__ is list else deref(a[0]); acc = a[1]
+    for x in it_all(E, it): acc = call_closure(E, a[2], [acc, x])
+    return acc
+
+
+def m_sum(E, path, a):
+    it = a[0] if a[0].__class__ is list else deref(a[0])
+    xs = it_all(E, it)
+    if not xs: return IntV(E.PW, 0)
+    acc = xs[0]
+    for x in xs[1:]: acc = E.binop('Add', acc, x)
+    return acc
+
+
+def m_mu_as_ptr(E, path, a): return a[0]
 
 
 def m_it_next(E, path, a): return it_next(E, deref(a[0]))
@@ -660,6 +789,7 @@ def m_str_len(E, path, a): return IntV(E.PW, a[0].meta)
 def m_atomic_load(E, path, a): return E.hooks['atomic_load'](a)
 def m_atomic_store(E, path, a): E.hooks['atomic_store'](a); return UNIT
 def m_feature(E, path, a): return E.hooks['feature'](path)
+def m_atomic_rmw(E, path, a): return E.hooks['atomic_rmw'](path, a)
 
 
 MODELS = [
@@ -694,6 +824,8 @@ MODELS = [
     (r'from_ne_bytes$|from_le_bytes$', m_from_ne_bytes),
     (r'from_be_bytes$', m_from_be_bytes),
     (r'to_ne_bytes$|to_le_bytes$', m_to_ne_bytes),
+    (r'ptr::(const|mut)_ptr::<impl \*(const|mut) \w+>::wrapping_add$', m_ptr_wrapping(1)),
+    (r'ptr::(const|mut)_ptr::<impl \*(const|mut) \w+>::wrapping_sub$', m_ptr_wrapping(-1)),
     (r'::wrapping_sub$', m_wrapping('Sub')), (r'::wrapping_add$', m_wrapping('Add')), (r'::wrapping_mul$', m_wrapping('Mul')),
     (r'::checked_sub$', m_checked('Sub')), (r'::checked_add$', m_checked('Add')), (r'::checked_mul$', m_checked('Mul')),
     (r'::overflowing_sub$', m_overflowing('Sub')), (r'::overflowing_add$', m_overflowing('Add')), (r'::overflowing_mul$', m_overflowing('Mul')),
@@ -702,7 +834,6 @@ MODELS = [
     (r'ptr::(const|mut)_ptr::<impl \*(const|mut) \w+>::add$', m_ptr_add),
     (r'ptr::(const|mut)_ptr::<impl \*(const|mut) \w+>::sub$', m_ptr_sub),
     (r'ptr::(const|mut)_ptr::<impl \*(const|mut) \w+>::offset$', m_ptr_offset),
-    (r'ptr::(const|mut)_ptr::<impl \*(const|mut) \w+>::wrapping_add$', m_ptr_add),
     (r'ptr::(const|mut)_ptr::<impl \*(const|mut) \w+>::offset_from$', m_offset_from),
     (r'ptr::(const|mut)_ptr::<impl \*(const|mut) \w+>::addr$', m_ptr_addr),
     (r'ptr::(const|mut)_ptr::<impl \*(const|mut) \w+>::read(_unaligned)?$|(^|::)ptr::read(_unaligned)?$', m_ptr_read),
@@ -716,9 +847,17 @@ MODELS = [
     (r'as Iterator>::copied$|as Iterator>::cloned$', m_copied),
     (r'as Iterator>::rev$', m_rev),
     (r'as IntoIterator>::into_iter$', m_into_iter),
-    (r'^<(.*::)?(slice::Iter|slice::IterMut|Enumerate|Copied|Cloned|Rev|Range|array::IntoIter|IntoIter)<.*> as Iterator>::next$', m_it_next),
+    (r'^<(.*::)?(slice::Iter|slice::IterMut|Enumerate|Copied|Cloned|Rev|Range|array::IntoIter|IntoIter|Chain|Take|Skip|Map|Filter|TakeWhile|SkipWhile|option::Iter)<.*> as Iterator>::next$', m_it_next),
     (r'as DoubleEndedIterator>::next_back$', m_it_next_back),
     (r'as ExactSizeIterator>::len$', m_it_len),
+    (r'as Iterator>::chain', m_chain), (r'as Iterator>::take$|as Iterator>::take::', m_it_take), (r'as Iterator>::skip$', m_it_skip),
+    (r'as Iterator>::map(::<.*>)?$', m_map_it), (r'as Iterator>::filter(::<.*>)?$', m_filter_it),
+    (r'as Iterator>::take_while', m_take_while), (r'as Iterator>::skip_while', m_skip_while),
+    (r'as Iterator>::min$', m_minmax_it('min')), (r'as Iterator>::max$', m_minmax_it('max')),
+    (r'as Iterator>::count$', m_count), (r'as Iterator>::last$', m_last), (r'as Iterator>::nth$', m_nth),
+    (r'as Iterator>::find(::<.*>)?$', m_find), (r'as Iterator>::fold(::<.*>)?$', m_fold), (r'as Iterator>::sum(::<.*>)?$', m_sum),
+    (r'(^|::)Option(::<.*>)?::(into_iter|iter)$', m_opt_into_iter),
+    (r'MaybeUninit(::<.*>)?::as_mut_ptr$|MaybeUninit(::<.*>)?::as_ptr$', m_mu_as_ptr),
     (r'as Iterator>::rposition', m_rposition),
     (r'as Iterator>::position', m_position),
     (r'as Iterator>::any', m_any_all('any')), (r'as Iterator>::all', m_any_all('all')),
@@ -854,6 +993,7 @@ MODELS[:0] = [
     (r'::trailing_ones$', m_trailing('ones')), (r'::trailing_zeros$', m_trailing('zeros')),
     (r'::leading_zeros$', m_leading_zeros),
     (r'Atomic(U8)?(::<u8>)?::load$', m_atomic_load), (r'Atomic(U8)?(::<u8>)?::store$', m_atomic_store),
+    (r'Atomic(U8)?(::<u8>)?::(compare_exchange(_weak)?|swap|fetch_\w+)$', m_atomic_rmw),
     (r'__is_feature_detected::|is_x86_feature_detected', m_feature),
 ]
 
